@@ -9,7 +9,11 @@ d = "/tmp/seed_%s%s" % (pid, suffix)
 hint = (" Prefer a less obvious place for the change than the first function that comes to mind: a helper it relies on, a "
         "variant or subclass that shares the behaviour (e.g. a TLS flavour, another server / store / doer class the statement "
         "also covers), an option or code path that default usage does not take, or a rarely exercised branch of the main path.") if suffix == "c" else ""
-if suffix >= "e":
+if suffix >= "f":
+    hint = (" Prefer a SILENT bug: nothing raises, nothing hangs, no log line; the only symptom is a wrong but plausible value, "
+            "order or piece of state (something left behind, counted twice, attributed to the wrong party, off by one) that a "
+            "casual observer would accept. Avoid changes whose first symptom is an exception or an obviously broken result.")
+elif suffix >= "e":
     hint = (" Prefer a bug that sits at an exact boundary rather than in the common middle of the range: a value equal to a "
             "limit, size or deadline, an empty or single-element collection, the first or the last element, two events that "
             "fall into the same cycle / the same read / the same call, a resource touched exactly once more than usual.")
